@@ -525,3 +525,9 @@ Definition box_axis (N : Z) : list (Z * (option Z * option Z * option Z)) :=
 Definition on_axis {T} (f : Z -> option Z -> option Z -> option Z -> T) (x : Z * (option Z * option Z * option Z)) : T :=
   let '(n, (a, b, c)) := x in f n a b c.
 Definition count {A} (f : A -> bool) (l : list A) : Z := Z.of_nat (length (filter f l)).
+
+(* sample on which the binary32 computation and the exact ceiling are cross-checked *)
+Definition szs (lo n : Z) : list Z := map (fun i => i + lo) (zrange n).
+Definition float_sample_s : list Z :=
+  szs (-120) 241 ++ szs (2 ^ 24 - 40) 41 ++ szs (- 2 ^ 24) 40 ++ [65536; 1000000; 8388607; 8388608; 8388609; 12345677].
+Definition float_sample_t : list Z := szs 1 40 ++ [1000; 4097; 65535; 2 ^ 24 - 1; 2 ^ 24].
